@@ -136,6 +136,10 @@ def check(spec):
     from mofun.mofun import AtomsShouldNotBeDeletedTwice
     S = chain(spec['structure'])
     sp, rp = pats(spec['pattern'])
+    if spec.get('charged') and len(rp.positions):
+        # the replacement carries its own charges and groups (different from the structure's): an atom both patterns share is still shared
+        rp.charges = np.array([0.25 + 0.1 * i for i in range(len(rp.positions))])
+        rp.groups = np.array([3] * len(rp.positions))
     N = len(S.positions)
     random.seed(spec.get('rng', 0))
     raised = None
@@ -199,6 +203,14 @@ def run(rec, tier, seed):
                     rec.case(repr(sorted(spec.items())), sample=spec if len(rec.samples) < 3 else None)
                     if msg:
                         rec.fail('overlap', 'overlap', "%s on %r" % (msg, spec), spec, 'C07/overlap')
+    for st in ('CNC', 'CNCNC'):
+        for pk in ('keep-N', 'keep-C', 'keep-both', 'none-shared'):
+            for ig in (False, True):
+                spec = dict(structure=st, pattern=pk, replace_all=False, ignore=ig, charged=True)
+                msg = check(spec)
+                rec.case(repr(sorted(spec.items())))
+                if msg:
+                    rec.fail('overlap', 'overlap', "%s on %r" % (msg, spec), spec, 'C07/overlap')
     # a replacement fraction below 1: only SELECTED matches count (CNC: two overlapping occurrences, one or none selected)
     for pk in ('keep-C', 'none-shared', 'moved-N', 'keep-N'):
         for f in (0.5, 0.0):
